@@ -105,6 +105,15 @@ class Spec:
         d = self._decide(e, node)
         if d is not None:
             return d
+        if isinstance(e, ast.Call) and isinstance(e.func, ast.Name) and e.func.id == "bool" and len(e.args) == 1 and not e.keywords:
+            return self._decide_expr(e.args[0], node, depth + 1)
+        if isinstance(e, ast.IfExp):
+            t = self._decide_expr(e.test, node, depth + 1)
+            if t is True:
+                return self._decide_expr(e.body, node, depth + 1)
+            if t is False:
+                return self._decide_expr(e.orelse, node, depth + 1)
+            return None
         if isinstance(e, ast.Name):
             # a local flag: decided when every definition that can reach here is decided the same way
             rd = self.rd or self._base_rd
